@@ -10,6 +10,29 @@ session reads back (EXAMINE + FETCH UID/BODY.PEEK[]) after every IMAP step and
 after every QUIT / drop.  Per POP3 session the oracle keeps the snapshot the
 session itself announced when it was opened (a harness-issued UIDL, which in
 asimap only reads two in-memory lists) and the DELE marks it acknowledged.
+
+Clauses (sig in brackets separates causes; "stale-key:*" sigs are computed from
+the MH files on disk and never decide a verdict):
+  C20.framing [CMD:reason]          reply unparsable / unterminated / followed by stray data / bad list line
+  C20.no-reply [CMD]                command not answered
+  C20.snapshot.initial              UIDL of a fresh session != IMAP UIDs of INBOX at that moment
+  C20.snapshot.numbering            LIST numbers != unmarked numbers of the snapshot
+  C20.snapshot.uidl-changed         UIDL [n] differs from the session's own snapshot
+  C20.snapshot.lost                 LIST n / UIDL n refused for an unmarked snapshot message
+  C20.snapshot.phantom              +OK for a number outside the snapshot (LIST/UIDL/RETR/TOP)
+  C20.size.changed                  LIST/LIST n size of a message differs from the size listed before
+  C20.size.list-vs-retr [zero-after-removal|stale-key:*]  LIST/STAT size != octets RETR delivered
+  C20.stat.count / .total / .shape  STAT disagrees with snapshot minus marks / with the listed sizes
+  C20.list.header                   "+OK n messages (m octets)" disagrees with its own lines
+  C20.retr.extra-crlf [retr]        RETR delivers announced+2 octets: extra CRLF before the terminator
+  C20.retr.octets                   announced octets != delivered octets (other than the above)
+  C20.retr.content [other-message:*] RETR n (unstuffed) != IMAP BODY[] of UID UIDL(n)
+  C20.retr.refused / C20.top.refused  -ERR although the message is still in INBOX
+  C20.top.content / C20.top.extra-crlf [top]   TOP: wrong message / wrong non-empty lines / extra CRLF at the end
+  C20.dele.invalid-accepted / .repeat-accepted / .refused
+  C20.rset.refused, C20.quit.err
+  C20.quit.removed-unmarked / .marked-survived / .inbox-differs / .uid-changed [uids-reassigned]
+  C20.no-quit.removed [drop|...] / C20.no-quit.uid-changed   something removed without QUIT
 """
 from __future__ import annotations
 
@@ -30,8 +53,9 @@ RULE = (
     "Steps: POP3 commands on sessions p/q (open, STAT, LIST [n], UIDL [n], RETR n, TOP n k, DELE n, RSET, NOOP, CAPA, "
     "unknown command, QUIT, abrupt drop; numbers valid, 0, negative, beyond the count, non-numeric, missing, already "
     "marked) | IMAP commands on sessions a/b (APPEND, STORE +FLAGS \\Deleted, EXPUNGE, UID EXPUNGE, CLOSE, MOVE / UID MOVE "
-    "to another mailbox, NOOP) | MH delivery | virtual-time advance of 1/6/25/45 s (management-task resync and, with the "
-    "generated pack limit of 2-4 messages, folder packing). Non-trivial = an IMAP command changed the message list of INBOX "
+    "to another mailbox, NOOP) | MH delivery | virtual-time advance of 1/6/12.5/25/30.25/45 s (management-task resync and, with the "
+    "generated pack limit of 2-4 messages, folder packing; whole-second advances let a POP3 command coincide with a wake-up of the "
+    "mailbox management task). Sessions still open after the last step QUIT / are dropped / stay open as the trace says. Non-trivial = an IMAP command changed the message list of INBOX "
     "(as read back by the observer) while a POP3 session was open, and that session later reached QUIT or was dropped; "
     "distinct = distinct trace hash."
 )
@@ -1008,6 +1032,52 @@ def execute(trace) -> CaseResult:
     res.sample = transcript
     res.labels = sorted(labels)
     return res
+
+
+# ------------------------------------------------------------------ bounded exhaustive part
+
+
+def extra(tier, seed):
+    """Dot-stuffing / termination / size clauses, exhaustively: every body of up to 3 (quick) or 4
+    (thorough) lines over {'.', '..', '.x', 'plain line', ''} with and without final newline is
+    delivered (alternately by MH delivery and APPEND) and read with RETR and TOP n 0/1/2/99, LIST, STAT."""
+    import itertools
+
+    alphabet = [0, 1, 3, 6, 7]
+    maxlen = 3 if tier == "quick" else 4
+    bodies = [()]
+    for k in range(1, maxlen + 1):
+        bodies.extend(itertools.product(alphabet, repeat=k))
+    specs = []
+    for b in bodies:
+        for nl in ((True, False) if b else (True,)):
+            specs.append({"b": list(b), "nl": nl})
+    out = {"evaluations": 0, "nontrivial": [], "violations": [], "samples": [], "coverage": {}}
+    per = 6
+    seen = set()
+    for c0 in range(0, len(specs), per):
+        chunk = specs[c0 : c0 + per]
+        steps = [{"op": "pop", "p": "p", "c": "open", "obs": True}, {"op": "pop", "p": "p", "c": "list", "obs": True}]
+        for i in range(len(chunk)):
+            steps.append({"op": "pop", "p": "p", "c": "retr", "obs": True, "n": {"k": "v", "i": i}})
+            for k in ("0", "1", "2", "99"):
+                steps.append({"op": "pop", "p": "p", "c": "top", "obs": True, "n": {"k": "v", "i": i}, "k": k})
+        steps.append({"op": "pop", "p": "p", "c": "stat", "obs": True})
+        trace = {
+            "rseed": 0, "pack": None, "predelete": [], "end": ["quit", "leave"],
+            "prefill": [{"msg": sp, "append": bool(i % 2)} for i, sp in enumerate(chunk)],
+            "steps": steps,
+        }
+        res = execute(trace)
+        if res.blocked:
+            continue
+        out["evaluations"] += 1
+        for vv in res.violations:
+            if vv.key() not in seen:
+                seen.add(vv.key())
+                out["violations"].append(vv.to_json())
+    out["coverage"] = {"exhaustive_bodies": {"alphabet": [LINES[i] for i in alphabet], "max_lines": maxlen, "messages": len(specs), "histories": out["evaluations"]}}
+    return out
 
 
 class _Blocked(Exception):
